@@ -25,7 +25,7 @@ ASSUMPTIONS = ['labelled objects are aligned with parsed nodes by kind and docum
                'NF-10: one label per object, label names over [a-z0-9:-]',
                'a label in the first row of an eqnarray may attach to the eqnarray node itself (same number)']
 DECIDING_HOOKS = ['Context.label', 'Context.ref']
-DECIDING_COUNTERS = {'unnumbered_item_labels': 10, 'equal_objects_labelled': 10, 'references_checked': 100}
+DECIDING_COUNTERS = {'recompiled_documents': 5, 'unnumbered_item_labels': 10, 'equal_objects_labelled': 10, 'references_checked': 100}
 
 
 def budget(tier):
@@ -127,10 +127,15 @@ def cases(seed, tier, shard, nshards):
             env = r.choice(['figure', 'table'])
             twins = ['twin:1', 'twin:2'] + (['twin:3'] if r.random() < 0.3 else [])
             suffix = '\n\n' + ''.join('\\begin{%s}Zq\\caption{Zc same caption}\\label{%s}\\end{%s}\n' % (env, t, env) for t in twins)
-        for name, v in variants(d):
+        vs = variants(d)
+        redo = r.random() < 0.08
+        for vi, (name, v) in enumerate(vs):
             exp, m = CM.numbers(v, 2)
-            yield {'variant': name, 'src': docs.latex(v, body_suffix=suffix), 'objects': [[k, n, l] for k, n, l in exp], 'refs': refs_of(v), 'labels': v['labels'],
-                   'twins': twins}
+            case = {'variant': name, 'src': docs.latex(v, body_suffix=suffix), 'objects': [[k, n, l] for k, n, l in exp], 'refs': refs_of(v), 'labels': v['labels'],
+                    'twins': twins}
+            if redo and len(vs) > 1:
+                case['recompile'] = docs.latex(vs[(vi + 1) % len(vs)][1], body_suffix=suffix)
+            yield case
 
 
 def collect_nodes(node, out):
@@ -171,6 +176,38 @@ def all_nodes(node, out, seen):
         all_nodes(c, out, seen)
 
 
+def recompile(prev_src, src, st):
+    import os, shutil, tempfile
+    from plasTeX import Compile
+    from ..obs import render as R
+    tmp = tempfile.mkdtemp(prefix='c09r-', dir=os.environ.get('PVMON_TMP') or None)
+    cwd = os.getcwd()
+    try:
+        os.chdir(tmp)
+        for text in (prev_src, src):
+            with open('job.tex', 'w', encoding='utf-8') as f:
+                f.write(text)
+            cfg = R.new_config({('general', 'renderer'): 'HTML5', ('files', 'log'): False})
+            common.plastex_reset()
+            tex = Compile.parse('job.tex', cfg)
+            if text is prev_src:
+                out = os.path.join(tmp, 'out')
+                os.makedirs(out, exist_ok=True)
+                os.chdir(out)
+                try:
+                    Compile.load_renderer('HTML5', cfg).render(tex.ownerDocument)
+                finally:
+                    os.chdir(tmp)
+                common.plastex_reset()
+                del _pending[:]
+                del _hook_viol[:]        # the hook state belongs to the document that is judged (the second run)
+        st.counters['recompiled_documents'] += 1
+        return tex.ownerDocument
+    finally:
+        os.chdir(cwd)
+        shutil.rmtree(tmp, ignore_errors=True)
+
+
 def run(case, st):
     from plasTeX.TeX import TeX
     common.plastex_reset()
@@ -178,9 +215,14 @@ def run(case, st):
     del _hook_viol[:]
     src = case['src']
     try:
-        tex = TeX()
-        tex.input(src)
-        doc = tex.parse()
+        if case.get('recompile'):
+            # the way the command-line program works on an edited document: a first run left job.paux behind (the same labels, written
+            # in another arrangement), the document is processed again by Compile.parse in that directory
+            doc = recompile(case['recompile'], src, st)
+        else:
+            tex = TeX()
+            tex.input(src)
+            doc = tex.parse()
     except common.CaseTimeout:
         raise
     except Exception as e:
